@@ -383,6 +383,15 @@ impl Sim {
         }
     }
 
+    /// Cancel a task right now (drop its future).
+    pub fn cancel_now(&self, id: TaskId) {
+        let Some(fut) = self.tasks.borrow_mut().remove(&id) else { return };
+        self.finish(id, TaskEnd::Cancelled);
+        let prev = self.current.replace(Some(id));
+        let _ = catch_unwind(AssertUnwindSafe(move || drop(fut)));
+        self.current.set(prev);
+    }
+
     /// Drop every remaining task (end of a case).
     pub fn drop_all(&self) {
         loop {
